@@ -318,15 +318,6 @@ theorem foldl_inv {α β : Type} (P : β → Prop) (f : β → α → β) (hf : 
 theorem core_addFault {g : List Id} {s : St} (h : Core g s) (f : Fault) : Core g (s.addFault f) :=
   core_congr h rfl rfl rfl rfl rfl
 
-theorem core_iteFault {g : List Id} {s : St} (h : Core g s) (b : Bool) (f : Fault) :
-    Core g (if b then s.addFault f else s) := by
-  split
-  · exact core_addFault h f
-  · exact h
-
-theorem oids_iteFault (s : St) (b : Bool) (f : Fault) :
-    oids (if b then s.addFault f else s) = oids s := by split <;> rfl
-
 theorem core_setActions {g : List Id} {s : St} (h : Core g s) (acts : List Action) :
     Core g { s with actions := acts } := core_congr h rfl rfl rfl rfl rfl
 
@@ -344,15 +335,11 @@ theorem core_procRemoveMove {g : List Id} {s : St} (h : Core g s) (a : Action) :
     · rename_i hob
       have ho : a.obj ∈ oids s := by
         rw [← hasObst_iff]; simpa using hob
-      have h' := core_iteFault h (!s.consolidate && !(s.pinsOf a.obj).isEmpty) (.reentry a.obj)
-      have ho' := ho
-      rw [← oids_iteFault s (!s.consolidate && !(s.pinsOf a.obj).isEmpty) (.reentry a.obj)] at ho'
-      exact core_congr (core_freeObstacle h' ho') rfl rfl rfl rfl rfl
+      exact core_congr (core_freeObstacle h ho) rfl rfl rfl rfl rfl
   · split
     · split
       · exact core_addFault h _
-      · have h' := core_iteFault h (!s.consolidate && !(followers s.conns a.obj).isEmpty) (.reentry a.obj)
-        refine core_mapConns h' (fun c => { c with src := detachEnd c.src a.obj, dst := detachEnd c.dst a.obj })
+      · refine core_mapConns h (fun c => { c with src := detachEnd c.src a.obj, dst := detachEnd c.dst a.obj })
           (fun _ => rfl) (fun c _ h1 h2 => ⟨h1.detach _, h2.detach _⟩) ?_ rfl rfl rfl rfl
         simp only [oids, List.map_map]
         apply List.map_congr_left
@@ -580,20 +567,14 @@ theorem core_step {s : St} (h : Core [] s) (op : Op) (hl : LegalDoc s op = true)
     simp only [Bool.and_eq_true] at hl
     have hx := fresh_of_contains hl.1.1
     have hA := core_addConn h false hx
-    dsimp only
-    split
-    · exact core_addFault hA _
-    · exact core_maybeProcess (core_modify (core_maybeProcess (core_modify hA _ _ _)) _ _ _)
+    exact core_maybeProcess (core_modify (core_maybeProcess (core_modify hA _ _ _)) _ _ _)
   | newPin pin shape cls =>
     simp only [Bool.and_eq_true] at hl
     have hx := fresh_of_contains hl.1.1
     have hs := hasShape_obst hl.1.2
     dsimp only
     rw [if_neg (by simp [hl.1.2])]
-    have h' := core_iteFault h (!s.consolidate && s.attachedCount shape != 0) (.reentry pin)
-    refine core_maybeProcess (core_enqueue (core_addPin h' _ ?_ ?_) _ _)
-    · split <;> exact hx
-    · rw [oids_iteFault]; exact hs
+    exact core_maybeProcess (core_enqueue (core_addPin h _ hx hs) _ _)
   | deleteShape id => exact core_deleteObstacleOp h _ _
   | deleteJunction id => exact core_deleteObstacleOp h _ _
   | deleteConn id =>
@@ -617,9 +598,7 @@ theorem core_step {s : St} (h : Core [] s) (op : Op) (hl : LegalDoc s op = true)
   | processTransaction => exact core_processTransaction h
   | setTransactionUse b => exact core_congr h rfl rfl rfl rfl rfl
   | deleteRouter =>
-    have h' := core_iteFault h (!s.consolidate && !s.actions.isEmpty &&
-                s.obst.any (fun o => o.active && !(s.pinsOf o.id).isEmpty)) (.reentry 0)
-    exact core_closeRouter (core_freeObsts (core_freeConns h' _ List.filter_sublist) _ List.filter_sublist)
+    exact core_closeRouter (core_freeObsts (core_freeConns h _ List.filter_sublist) _ List.filter_sublist)
   | rDelConn id =>
     simp only [Bool.and_eq_true] at hl
     dsimp only
